@@ -95,8 +95,9 @@ def pmap(func, items, chunk=None, workers=None):
     """Ordered parallel map over ``items`` with forked workers (created once per call).
 
     The order of results equals the order of items, so everything derived from it is
-    independent of the number of workers.
-    """
+    independent of the number of workers.  Items are dispatched in rounds (pool.map), so a
+    consumer that stops early never leaves tasks in flight (the pool is closed gracefully
+    between rounds)."""
     global _FUNC
     items = list(items)
     workers = workers or n_workers()
@@ -105,17 +106,19 @@ def pmap(func, items, chunk=None, workers=None):
             yield func(it)
         return
     if chunk is None:
-        chunk = max(1, min(256, len(items) // (workers * 8) or 1))
+        chunk = max(1, min(64, len(items) // (workers * 8) or 1))
     chunks = [items[i:i + chunk] for i in range(0, len(items), chunk)]
+    rnd = workers * 6
     _FUNC = func
     ctx = multiprocessing.get_context('fork')
     pool = ctx.Pool(min(workers, len(chunks)))
     try:
-        for outs in pool.imap(_call_chunk, chunks):
-            for o in outs:
-                yield o
+        for r in range(0, len(chunks), rnd):
+            for outs in pool.map(_call_chunk, chunks[r:r + rnd], chunksize=1):
+                for o in outs:
+                    yield o
     finally:
-        pool.terminate()
+        pool.close()
         pool.join()
         _FUNC = None
 
